@@ -59,9 +59,13 @@ public:
     Tracked() : p_(new int(0)) { Ledger::get().born(this); }
     Tracked(int v) : p_(new int(v)) { Ledger::get().born(this); } // NOLINT implicit
     Tracked(const Tracked& o) : p_(new int(o.value())) { Ledger::get().born(this); }
+    //! value left behind in a moved-from element: valid but unspecified for C++, and deliberately a value no
+    //! generator produces, so that code which keeps USING a moved-from element (compares it, copies it, stores
+    //! it) produces visibly wrong contents instead of silently right ones
+    static const int kMovedFrom = -1431655766; // 0xAAAAAAAA
     Tracked(Tracked&& o) noexcept : p_(new int(o.value())) {
         Ledger::get().born(this);
-        *o.p_ = o.value(); // moved-from stays valid (and keeps its value: simplest legal choice)
+        *o.p_ = kMovedFrom;
     }
     Tracked& operator=(const Tracked& o) {
         Ledger::get().check_live(this, "copy-assign");
@@ -70,7 +74,10 @@ public:
     }
     Tracked& operator=(Tracked&& o) noexcept {
         Ledger::get().check_live(this, "move-assign");
-        *p_ = o.value();
+        if (this != &o) {
+            *p_ = o.value();
+            *o.p_ = kMovedFrom;
+        }
         return *this;
     }
     ~Tracked() {
